@@ -139,12 +139,16 @@ class ListPack(_Pack):
     name = "pysnark.pack:PackList.pack"
 
     def configs(self, tier):
-        return [dict(schema=s, kind=k) for s in ("flat", "nested", "repeat_after_wide") for k in ("plain", "secret")]
+        return [dict(schema=s, kind=k) for s in ("flat", "nested", "repeat_after_wide", "reused_packer") for k in ("plain", "secret")]
 
     def _schema(self, c, name):
         pk = _pk(c)
         if name == "flat":
             return pk.PackList([pk.PackBool(), pk.PackIntMod(5), pk.PackIntMod(16)]), [2, 5, 16]
+        if name == "reused_packer":
+            # ONE packer object describes two fields (nib = PackIntMod(16); PackList([nib, PackBool(), nib]))
+            nib = pk.PackIntMod(16)
+            return pk.PackList([nib, pk.PackBool(), nib]), [16, 2, 16]
         if name == "repeat_after_wide":
             # the repetition starts at an offset larger than the width of its element
             return pk.PackList([pk.PackIntMod(100), pk.PackRepeat(pk.PackBool(), 4), pk.PackRepeat(pk.PackIntMod(5), 2)]), None
@@ -157,6 +161,10 @@ class ListPack(_Pack):
         if cfg["schema"] == "flat":
             vals = [mk("v0", 2), mk("v1", 5), mk("v2", 16)]
             self._mods = [2, 5, 16]
+            self._flat = list(vals)
+        elif cfg["schema"] == "reused_packer":
+            vals = [mk("v0", 16), mk("v1", 2), mk("v2", 16)]
+            self._mods = [16, 2, 16]
             self._flat = list(vals)
         elif cfg["schema"] == "repeat_after_wide":
             a = mk("a", 100)
